@@ -274,6 +274,8 @@ def rand_prob(rng, names, opts):
     if opts.get("interventions") and rest and rng.random() < 0.3:
         kk = rng.randint(1, min(2, len(rest)))
         shared = sorted([n, rng.random() < 0.3] for n in rng.sample(rest, kk))
+        if opts.get("reflexive") and rng.random() < 0.25:
+            shared = sorted(shared + [[rng.choice(picked), rng.random() < 0.3]])  # X under an intervention on X itself
     elif opts.get("multiworld"):
         shared = None
     else:
